@@ -197,13 +197,13 @@ def matchesBin (w : String) (s : String) : Option (List (Array String)) :=
   first match (then a character is skipped, or the input is empty); an empty match after a
   previous match is dropped and a character is skipped, unless the input is exhausted. -/
 
-/-- `(?P<sign>\\+|-)?` -/
+/-- `(?P<sign>\+|-)?` -/
 def takeSign (s : Cs) : String × Cs :=
   match s with
   | c :: t => if isSign c then (String.singleton c, t) else ("", s)
   | [] => ("", [])
 
-/-- `(?:(?P<var>(?i:V))\\^?(?P<deg>[0-9]*))?\\s*` at `r5`: groups var, deg and the position after it -/
+/-- `(?:(?P<var>(?i:V))\^?(?P<deg>[0-9]*))?\s*` at `r5`: groups var, deg and the position after it -/
 def varDeg (v r5 : Cs) : String × String × Cs :=
   match stripCi v r5 with
   | some r6 =>
